@@ -358,11 +358,19 @@ def gen_regexes(cfg):
                 months[n - 1]["short"] = name
         rows.append("(%s, %s)" % (cstr(l), clist(
             "(%s, {| mi_short := %s; mi_long := %s; mi_month := %s |})" % (
-                cre(r"\b%s\b|\b%s\b" % (m["long"], m["short"])), cstr(m["short"]), cstr(m["long"]), cZ(m["month"]))
+                cre(month_pattern(langs[l], m["month"])), cstr(m["short"]), cstr(m["long"]), cZ(m["month"]))
             for m in months)))
     A("Definition g_months : list (str * list (cre * monthinfo)) := %s." % clist(rows))
     A("Definition g_linesplit : cre := %s." % cre(r"\r\n|\n"))
     return "\n".join(L) + "\n"
+
+
+def month_pattern(lang, number):
+    """config.rs: every configured spelling of the month, long names first (BTreeMap order), then the short names
+    not already listed"""
+    names = [n for n in sorted(lang["long_months"]) if lang["long_months"][n] == number]
+    names += [n for n in sorted(lang["short_months"]) if lang["short_months"][n] == number and n not in names]
+    return "|".join(r"\b%s\b" % n for n in names)
 
 
 def main():
